@@ -48,9 +48,6 @@ pub fn verif_default_bg(default: Option<Style>) -> (r: Option<ansi_term::Color>)
 pub fn verif_default_syntax(default: Option<Style>) -> (r: bool)
     ensures r == (match default { Some(d) => d.is_syntax_highlighted, None => false }) { unimplemented!() }
 
-/// `&str == &str`
-pub assume_specification[ <str as PartialEq<str>>::eq ](a: &str, b: &str) -> (r: bool)
-    ensures r == (a@ == b@);
 
 // ---------------------------------------------------------------- what a style string means (C12)
 /// the words that are not colours: attributes, and the three words that only mean something in hunk-header-style
